@@ -67,7 +67,7 @@ func checkWatcherTable(c *Ctx) {
 		if e == nil {
 			return nil
 		}
-		return &Term{K: "selrecv", S: fmt.Sprint(e.Arm), A: []*Term{e.Res}}
+		return selRecvTerm(e)
 	}
 	// newSession(v): newWatchSession(ctx derived from WithCancel(w.ctx), w.log, w.client, v)
 	isNewSession := func(t *Term, v *Term) string {
@@ -456,7 +456,7 @@ func checkSessionTable(c *Ctx) {
 		if e == nil {
 			return nil
 		}
-		return &Term{K: "selrecv", S: fmt.Sprint(e.Arm), A: []*Term{e.Res}}
+		return selRecvTerm(e)
 	}
 	isFrameField := func(pa *Path, t *Term, f string) bool { return t.IsField(f) && sameTerm(t.A[0], recvOf(pa)) }
 	isAccessor := func(pa *Path, t *Term) bool {
